@@ -50,7 +50,7 @@ def build(ctx):
     scan = os.path.join(d, 'clex_scan.c')
     info = lexgen.build_scanner(scan)
     exe = os.path.join(d, 'clex')
-    cmd = ['clang', '-g', '-O1', '-fsanitize=address,undefined', '-fno-omit-frame-pointer', '-fno-sanitize-recover=undefined',
+    cmd = ['clang', '-g', '-O1', '-fsanitize=address,undefined', '-fno-omit-frame-pointer', '-fno-sanitize-recover=undefined', '-ftrivial-auto-var-init=pattern',
            '-I', os.path.join(repo, 'clex'), '-Wno-unused-function', scan, os.path.join(repo, 'clex', 'driver.c'), '-o', exe]
     r = subprocess.run(cmd, capture_output=True, text=True)
     if r.returncode != 0:
